@@ -172,6 +172,8 @@ val existsb : ('a1 -> bool) -> 'a1 list -> bool
 
 val forallb : ('a1 -> bool) -> 'a1 list -> bool
 
+val filter : ('a1 -> bool) -> 'a1 list -> 'a1 list
+
 val firstn : nat -> 'a1 list -> 'a1 list
 
 val skipn : nat -> 'a1 list -> 'a1 list
@@ -236,6 +238,8 @@ val rstrip_by : (z -> bool) -> z list -> z list
 val strip_by : (z -> bool) -> z list -> z list
 
 val rstrip_nl : z list -> z list
+
+val rstrip_py : z list -> z list
 
 val strip_py : z list -> z list
 
@@ -592,3 +596,138 @@ val doc_split : z list -> z list * z list
 val doc_entry : z list -> z list -> k7_file
 
 val doc_path : z list -> z list
+
+val basic_tokens : (z list * z) list
+
+val require_colon : z list list
+
+val special_chars : z list
+
+val program_base : z
+
+val conv_u16 : z -> z list
+
+val tok_u8 : z -> z list
+
+val tok_u16 : z -> z list
+
+val bytes_from_uint : z -> z list
+
+val colon_byte : z
+
+val ptr_step : z -> z list -> z
+
+val prog_marker : z list
+
+val line_end : z list
+
+val prog_end : z list
+
+val ascii_eol : z list
+
+val ascii_keep : z -> bool
+
+val b2l_eol : bool -> z list
+
+val b2l_is_sep : z -> bool
+
+val b2l_flush_test : z -> bool
+
+val lookup : z list -> (z list * z) list -> z option
+
+val tok_of : z list -> z option
+
+val needs_colon : z list -> bool
+
+val utf8_char : z -> z list
+
+val utf8 : z list -> z list
+
+type tctx = { t_done : z list; t_cand : z list; t_src : z list;
+              t_bucket : z list }
+
+val tctx0 : tctx
+
+val commit : tctx -> tctx
+
+val token_bytes : z list -> z -> z list
+
+val append_plain : tctx -> z list -> z -> tctx
+
+val append_token : tctx -> z -> tctx
+
+val append_literal : tctx -> z -> tctx
+
+val is_special : z -> bool
+
+val is_one_char_token : z -> bool
+
+val parse_char : (tctx * bool) -> z -> tctx * bool
+
+val parse_line : z list -> z list
+
+val extract_line_parts : z list -> (z * z list) res
+
+val convert_lines : z list list -> z -> z list -> z list res
+
+val tokenize_program : z list list -> z list res
+
+val ascii_line : z list -> z list
+
+val lst_to_ascii : z list list -> z list
+
+val b2l_loop : bool -> z list -> z -> z list
+
+val ascii_to_lst : bool -> z list -> z list
+
+val mo5_vocabulary : (z list * z) list
+
+val vocab_code : z list -> (z list * z) list -> z option
+
+val vocab_word : z -> (z list * z) list -> z list option
+
+val code_of : z list -> z option
+
+val word_of : z -> z list option
+
+val u16 : z -> z list
+
+val code_bytes : z -> z list
+
+val else_word : z list
+
+val word_bytes : z list -> z -> z list
+
+val expand : nat -> z list -> z list option
+
+val mo5_base : z
+
+val split_at_zero : z list -> z list -> (z list * z list) option
+
+val records : nat -> z -> z list -> (z * z list) list option
+
+val program_records : z list -> (z * z list) list option
+
+val expand_all : (z * z list) list -> (z * z list) list option
+
+val detok : z list -> (z * z list) list option
+
+val upper_outside_strings : bool -> z list -> z list
+
+val line_number : z list -> z
+
+val line_text : z list -> z list
+
+type lexeme =
+| LKeyword of z list
+| LText of z list
+| LString of z list * bool
+| LDelim of z
+
+val lex_source : lexeme -> z list
+
+val lex_encode : lexeme -> z list
+
+val ref_encode : lexeme list -> z list
+
+val ref_source : lexeme list -> z list
